@@ -82,9 +82,12 @@ fn inner(seed: u64, actions: &mut Vec<String>, reads: &mut u64, nontrivial: &mut
     let rs: Rc<RefCell<Vec<RNode>>> = Rc::new(RefCell::new(vec![]));
     let b2s: Rc<RefCell<Vec<B2>>> = Rc::new(RefCell::new(vec![]));
     let (g1c, g2c) = (Rc::new(Cell::new(0u64)), Rc::new(Cell::new(0u64)));
+    // every closure owns a clone of this token: after the teardown nothing may hold one (C12)
+    let token: Rc<()> = Rc::new(());
     let b1: Incr<i64> = {
-        let (yw, xw, rs, b2s, log, g1c, g2c, st2) = (y.watch(), x.watch(), rs.clone(), b2s.clone(), log.clone(), g1c.clone(), g2c.clone(), st.weak());
+        let (yw, xw, rs, b2s, log, g1c, g2c, st2, tok) = (y.watch(), x.watch(), rs.clone(), b2s.clone(), log.clone(), g1c.clone(), g2c.clone(), st.weak(), token.clone());
         l.bind(move |&v1| {
+            let tok = tok.clone();
             let g1 = g1c.get() + 1;
             g1c.set(g1);
             log.borrow_mut().push(Ev::B1Run { g1, v1 });
@@ -93,8 +96,9 @@ fn inner(seed: u64, actions: &mut Vec<String>, reads: &mut u64, nontrivial: &mut
                 let g2 = g2c.get() + 1;
                 g2c.set(g2);
                 log2.borrow_mut().push(Ev::B2Run { g1, g2, v2 });
-                let log3 = log2.clone();
+                let (log3, tok2) = (log2.clone(), tok.clone());
                 let r = xw.map(move |&x| {
+                    let _ = &tok2;
                     log3.borrow_mut().push(Ev::R { g1, g2, x });
                     x + v1 + v2
                 });
@@ -300,12 +304,18 @@ fn inner(seed: u64, actions: &mut Vec<String>, reads: &mut u64, nontrivial: &mut
             }
         }
         drop(other);
+        drop(_x_other);
         rs.borrow_mut().clear();
         b2s.borrow_mut().clear();
         drop(b1);
+        drop((l, y, x));
     }));
     if let Err(e) = r {
         return Err(("C12".into(), format!("teardown panicked: {}", crate::panic_message(e))));
+    }
+    let held = Rc::strong_count(&token) - 1;
+    if held != 0 {
+        return Err(("C12".into(), format!("after every handle and the state were dropped (order {order}), {held} closure(s) of the nested binds are still alive")));
     }
     Ok(())
 }
